@@ -241,6 +241,71 @@ theorem leftFacts : (e : Expr) → PrecOK e → NF e → LeftFacts e
     simp only [PrecOK, precOK, Bool.and_eq_true, decide_eq_true_eq] at hp
     have ih := leftFacts e hp.1.1 (by simp only [NF, nf, Bool.and_eq_true] at hn; exact hn.1.1)
     exact LeftFacts.left (by rw [yield]) ih (fun _ => hp.1.2) (fun _ => by omega)
+  | .caseE .., _, _ => ⟨by simp [yield], by simp [yield, hk, T, unOp?], by simp [yield, hk, T],
+      LeadOK.head (by simp [T]) (by simp [T])⟩
+  | .ifE .., _, _ => ⟨by simp [yield], by simp [yield, hk, T, unOp?], by simp [yield, hk, T],
+      LeadOK.head (by simp [T]) (by simp [T])⟩
+  | .cast .., _, _ => ⟨by simp [yield], by simp [yield, hk, T, unOp?], by simp [yield, hk, T],
+      LeadOK.head (by simp [T]) (by simp [T])⟩
+  | .array .nil, _, _ => ⟨by simp [yield], by simp [yield, hk, T, unOp?], by simp [yield, hk, T],
+      LeadOK.head (by simp [T]) (by simp [T])⟩
+  | .array (.cons _ _), _, _ => ⟨by simp [yield], by simp [yield, hk, T, unOp?], by simp [yield, hk, T],
+      LeadOK.head (by simp [T]) (by simp [T])⟩
+
+/-- the token classes an expression can start with -/
+def startTK : TK → Bool
+  | .null | .true_ | .false_ | .int | .float | .string | .bytes | .param | .ident | .lparen
+  | .plus | .minus | .tilde | .not_ | .case_ | .if_ | .lbrack | .cast => true
+  | _ => false
+
+theorem startTK_left {a b : List Tok'} (h : startTK (hk a) = true) : startTK (hk (a ++ b)) = true := by
+  cases a with
+  | nil => simp [hk, startTK] at h
+  | cons y ys => exact h
+
+/-- the yield of a tree in normal form starts with a token that can start an expression (in particular it is not
+empty and does not start with WHEN, THEN, ELSE, END, `)`, `]`, `,`) -/
+theorem hk_yield_start : (e : Expr) → NF e → startTK (hk (yield e)) = true
+  | .null, _ | .str _, _ | .bytes _, _ | .param _, _ | .ident _, _ | .paren _, _ | .caseE .., _ | .ifE .., _ => rfl
+  | .array .nil, _ | .array (.cons _ _), _ | .cast .., _ => rfl
+  | .bool b, _ => by cases b <;> rfl
+  | .int s _, _ => by cases s with
+    | none => rfl
+    | some s => cases s <;> rfl
+  | .float s _, _ => by cases s with
+    | none => rfl
+    | some s => cases s <;> rfl
+  | .path ns, hn => by
+    cases ns with
+    | nil => simp [NF, nf] at hn
+    | cons a ns => simp [yield, hk_pathToks, startTK]
+  | .unary op _, _ => by cases op <;> rfl
+  | .bin _ l _, hn => by
+    simp only [NF, nf, Bool.and_eq_true] at hn
+    exact startTK_left (hk_yield_start l hn.1)
+  | .isNull e _, hn => startTK_left (hk_yield_start e (by simpa [NF, nf] using hn))
+  | .isBool e _ _, hn => startTK_left (hk_yield_start e (by simpa [NF, nf] using hn))
+  | .between _ e _ _, hn => by
+    simp only [NF, nf, Bool.and_eq_true] at hn
+    exact startTK_left (hk_yield_start e hn.1.1)
+  | .inList _ e _ _, hn => by
+    simp only [NF, nf, Bool.and_eq_true] at hn
+    exact startTK_left (hk_yield_start e hn.1.1)
+  | .inUnnest _ e _, hn => by
+    simp only [NF, nf, Bool.and_eq_true] at hn
+    exact startTK_left (hk_yield_start e hn.1)
+  | .sel e _, hn => by
+    simp only [NF, nf, Bool.and_eq_true] at hn
+    exact startTK_left (hk_yield_start e hn.1)
+  | .index e none _, hn => by
+    simp only [NF, nf, Bool.and_eq_true] at hn
+    exact startTK_left (hk_yield_start e hn.1)
+  | .index e (some (_, _)) _, hn => by
+    simp only [NF, nf, Bool.and_eq_true] at hn
+    exact startTK_left (hk_yield_start e hn.1.1)
+
+theorem yield_ne_of_start {e : Expr} (h : startTK (hk (yield e)) = true) : yield e ≠ [] := by
+  intro h0; rw [h0] at h; simp [hk, startTK] at h
 
 /-! ## moving between levels -/
 
@@ -367,16 +432,6 @@ theorem cps1_param (v : Bytes) : CPS1 (.param v) := cps1_of_lit fun pre rest hr 
   obtain ⟨t, rfl, ht, _⟩ := (show Reads pre [⟨.param, v⟩] by simpa [yield] using hr).one
   obtain ⟨hk, hv⟩ := proj_asString ht (Or.inl rfl)
   exact ev_lit_of_eq fun f => by simp [parseLit, hk, parseParam, expectThen, hv]
-
-/-- the identifier chain `. n₁ . n₂ …` -/
-def dotToks : List Bytes → List Tok'
-  | [] => []
-  | n :: ns => T .dot :: ⟨.ident, n⟩ :: dotToks ns
-
-theorem pathToks_eq (a : Bytes) (ns : List Bytes) : pathToks (a :: ns) = ⟨.ident, a⟩ :: dotToks ns := by
-  induction ns generalizing a with
-  | nil => rfl
-  | cons b ns ih => simp [pathToks, dotToks, ih b]
 
 /-- `lookaheadCallExpr` does not see a call behind an identifier chain that is not followed by `(` or `.` -/
 theorem lookahead_dots {rest : List Token} (h1 : cur rest ≠ .lparen) (h2 : cur rest ≠ .dot) :
@@ -645,26 +700,29 @@ theorem direct_between {not : Bool} {l lo hi : Expr} (cl : Complete l) (clo : Co
     exact ⟨noCont_cons (l := 9) (by rw [proj_T htn]; rfl) (by omega),
       by simpa using ev_cmpTail_notBetween (proj_T htn) (proj_T htb) eb⟩
 
-/-- the elements of an IN list after the first (the list is closed by `)`) -/
+/-- the token that closes a comma-separated list: `)` (IN list) or `]` (array literal) -/
+def Closes (rest : List Token) : Prop := cur rest = .rparen ∨ cur rest = .rbrack
+
+/-- the elements of an IN list / array literal after the first (the list is closed by `)` / `]`) -/
 def CompleteL (m : Exprs) : Prop :=
-  ∀ pre rest, Reads pre (yields m) → cur rest = .rparen → Ev (fun f => inListLoop f (pre ++ rest)) (.ok (m, rest))
+  ∀ pre rest, Reads pre (yields m) → Closes rest → Ev (fun f => inListLoop f (pre ++ rest)) (.ok (m, rest))
 
 theorem completeL_nil : CompleteL .nil := by
   intro pre rest hr hc
   rw [(show Reads pre [] by simpa [yields] using hr).nil]
-  exact ev_inList_nil (by rw [List.nil_append, hc]; decide)
+  exact ev_inList_nil (by rw [List.nil_append]; rcases hc with hc | hc <;> rw [hc] <;> decide)
 
-theorem cur_yields {m : Exprs} {pre rest : List Token} (hr : Reads pre (yields m)) (hc : cur rest = .rparen) :
-    cur (pre ++ rest) = .comma ∨ cur (pre ++ rest) = .rparen := by
+theorem cur_yields {m : Exprs} {pre rest : List Token} (hr : Reads pre (yields m)) (hc : Closes rest) :
+    cur (pre ++ rest) = .comma ∨ Closes (pre ++ rest) := by
   cases m with
   | nil => rw [(show Reads pre [] by simpa [yields] using hr).nil]; exact Or.inr hc
   | cons e es =>
     obtain ⟨t, p, rfl, ht, _, _⟩ := (show Reads pre (T .comma :: (yield e ++ yields es)) by simpa [yields] using hr).cons
     exact Or.inl (by simp [proj_T ht])
 
-theorem noCont_yields {m : Exprs} {pre rest : List Token} (hr : Reads pre (yields m)) (hc : cur rest = .rparen) :
+theorem noCont_yields {m : Exprs} {pre rest : List Token} (hr : Reads pre (yields m)) (hc : Closes rest) :
     noCont 12 (pre ++ rest) = true := by
-  rcases cur_yields hr hc with h | h <;> simp [noCont, h, contLevel]
+  rcases cur_yields hr hc with h | h | h <;> simp [noCont, h, contLevel]
 
 theorem completeL_cons {e : Expr} {es : Exprs} (c : Complete e) (cs : CompleteL es) : CompleteL (.cons e es) := by
   intro pre rest hr hc
@@ -684,7 +742,7 @@ theorem direct_inList {not : Bool} {l first : Expr} {more : Exprs} (cl : Complet
   obtain ⟨pf, p4, rfl, hpf, h4⟩ := h3.append
   obtain ⟨pm, p5, rfl, hpm, h5⟩ := h4.append
   obtain ⟨tr, rfl, htr, _⟩ := h5.one
-  have hcr : cur (tr :: rest) = .rparen := by simp [proj_T htr]
+  have hcr : Closes (tr :: rest) := Or.inl (by simp [proj_T htr])
   have ec : Ev (fun f => parseInCondition f (tl :: (pf ++ (pm ++ (tr :: rest))))) (.ok (.values first more, rest)) :=
     ev_inCond_values (proj_T htl) (selectAhead_false hpf.1 hf.lead)
       (ev_parseExpr_of cf hpf (noCont_yields hpm hcr)) (cm pm (tr :: rest) hpm hcr) (proj_T htr)
@@ -717,6 +775,153 @@ theorem direct_inUnnest {not : Bool} {l a : Expr} (cl : Complete l) (hl : level 
   · obtain ⟨tn, rfl, htn, _⟩ := (show Reads pn [T .not_] by simpa [notToks] using hpn).one
     exact ⟨noCont_cons (l := 9) (by rw [proj_T htn]; rfl) (by omega),
       by simpa [InCond.mk] using ev_cmpTail_notIn (e1 := l) (proj_T htn) (proj_T hti) ec⟩
+
+/-! ## CASE and IF -/
+
+theorem noCont_of_cur {k : Nat} {ts : List Token} (h : contLevel (cur ts) = none) : noCont k ts = true := by
+  simp [noCont, h]
+
+/-- an optional operand: complete, and in normal form (so that its yield starts like an expression) -/
+def CompleteO (o : OExpr) : Prop := ∀ e, o = .some e → Complete e ∧ NF e
+
+/-- the further WHEN clauses (closed by ELSE or END) -/
+def CompleteW (ws : Whens) : Prop :=
+  ∀ pre rest, Reads pre (yieldW ws) → (cur rest = .else_ ∨ cur rest = .end_) →
+    Ev (fun f => caseWhenLoop f (pre ++ rest)) (.ok (ws, rest))
+
+theorem completeW_nil : CompleteW .nil := by
+  intro pre rest hr hc
+  rw [(show Reads pre [] by simpa [yieldW] using hr).nil]
+  exact ev_caseLoop_nil (by rw [List.nil_append]; rcases hc with h | h <;> rw [h] <;> decide)
+
+theorem cur_yieldW {ws : Whens} {pre rest : List Token} (hr : Reads pre (yieldW ws))
+    (hc : cur rest = .else_ ∨ cur rest = .end_) :
+    cur (pre ++ rest) = .when_ ∨ cur (pre ++ rest) = .else_ ∨ cur (pre ++ rest) = .end_ := by
+  cases ws with
+  | nil => rw [(show Reads pre [] by simpa [yieldW] using hr).nil]; exact Or.inr hc
+  | cons c t ws =>
+    obtain ⟨u, p, rfl, hu, _, _⟩ :=
+      (show Reads pre (T .when_ :: (yield c ++ (T .then_ :: (yield t ++ yieldW ws)))) by simpa [yieldW] using hr).cons
+    exact Or.inl (by simp [proj_T hu])
+
+theorem noCont_yieldW {ws : Whens} {pre rest : List Token} (hr : Reads pre (yieldW ws))
+    (hc : cur rest = .else_ ∨ cur rest = .end_) : noCont 12 (pre ++ rest) = true := by
+  rcases cur_yieldW hr hc with h | h | h <;> exact noCont_of_cur (by rw [h]; rfl)
+
+/-- one WHEN clause -/
+theorem ev_when_of {c t : Expr} (cc : Complete c) (ct : Complete t) {pre rest : List Token}
+    (hr : Reads pre (T .when_ :: (yield c ++ (T .then_ :: yield t)))) (hn : noCont 12 rest = true) :
+    Ev (fun f => parseCaseWhen f (pre ++ rest)) (.ok ((c, t), rest)) := by
+  obtain ⟨t0, p, rfl, ht0, _, hp⟩ := hr.cons
+  obtain ⟨pc, p1, rfl, hpc, h1⟩ := hp.append
+  obtain ⟨u, pt, rfl, hu, _, hpt⟩ := h1.cons
+  rw [show (t0 :: (pc ++ u :: pt)) ++ rest = t0 :: (pc ++ (u :: (pt ++ rest))) by simp]
+  exact ev_caseWhen (proj_T ht0) (ev_parseExpr_of cc hpc (noCont_cons_none (by rw [proj_T hu]; rfl))) (proj_T hu)
+    (ev_parseExpr_of ct hpt hn)
+
+theorem completeW_cons {c t : Expr} {ws : Whens} (cc : Complete c) (ct : Complete t) (cs : CompleteW ws) :
+    CompleteW (.cons c t ws) := by
+  intro pre rest hr hc
+  obtain ⟨p1, p2, rfl, h1, h2⟩ :=
+    (show Reads pre ((T .when_ :: (yield c ++ (T .then_ :: yield t))) ++ yieldW ws) by simpa [yieldW] using hr).append
+  rw [List.append_assoc]
+  have hcur : cur (p1 ++ (p2 ++ rest)) = .when_ := by rw [cur_reads h1 (by simp)]; rfl
+  exact ev_caseLoop_cons hcur (ev_when_of cc ct h1 (noCont_yieldW h2 hc)) (cs p2 rest h2 hc)
+
+theorem cps1_caseE {o el : OExpr} {c t : Expr} {ws : Whens} (co : CompleteO o) (cc : Complete c) (ct : Complete t)
+    (cw : CompleteW ws) (cel : CompleteO el) : CPS1 (.caseE o c t ws el) :=
+  cps1_of_lit fun pre rest hr _ _ => by
+    rw [show yield (.caseE o c t ws el) = T .case_ :: (yieldO [] o ++ ((T .when_ :: (yield c ++ (T .then_ :: yield t))) ++
+      (yieldW ws ++ (yieldO [T .else_] el ++ [T .end_])))) by simp [yield]] at hr
+    obtain ⟨t0, p, rfl, ht0, _, hp⟩ := hr.cons
+    obtain ⟨po, p1, rfl, hpo, h1⟩ := hp.append
+    obtain ⟨pw, p2, rfl, hpw, h2⟩ := h1.append
+    obtain ⟨pl, p3, rfl, hpl, h3⟩ := h2.append
+    obtain ⟨pe, p4, rfl, hpe, h4⟩ := h3.append
+    obtain ⟨u, rfl, hu, _⟩ := h4.one
+    rw [show (t0 :: (po ++ (pw ++ (pl ++ (pe ++ [u]))))) ++ rest = t0 :: (po ++ (pw ++ (pl ++ (pe ++ (u :: rest))))) by simp]
+    have hu' := proj_T hu
+    -- what follows the WHEN clauses: ELSE … END, or END
+    have hce : cur (pe ++ (u :: rest)) = .else_ ∨ cur (pe ++ (u :: rest)) = .end_ := by
+      cases el with
+      | none => rw [(show Reads pe [] by simpa [yieldO] using hpe).nil]; exact Or.inr (by simp [hu'])
+      | some e =>
+        obtain ⟨te, pe', rfl, hte, _, _⟩ := (show Reads pe (T .else_ :: yield e) by simpa [yieldO] using hpe).cons
+        exact Or.inl (by simp [proj_T hte])
+    have hcw : cur (pw ++ (pl ++ (pe ++ (u :: rest)))) = .when_ := by rw [cur_reads hpw (by simp)]; rfl
+    refine ev_caseE (proj_T ht0) ?_ (ev_when_of cc ct hpw (noCont_yieldW hpl hce)) (cw pl _ hpl hce) ?_ hu'
+    · cases o with
+      | none =>
+        rw [(show Reads po [] by simpa [yieldO] using hpo).nil]
+        exact ev_caseOperand_none hcw
+      | some e =>
+        obtain ⟨ce, ne⟩ := co e rfl
+        have hpo' : Reads po (yield e) := by simpa [yieldO] using hpo
+        have hs := hk_yield_start e ne
+        refine ev_caseOperand_some ?_ (ev_parseExpr_of ce hpo' (noCont_of_cur (by rw [hcw]; rfl)))
+        rw [cur_reads hpo' (yield_ne_of_start hs)]
+        intro h; rw [h] at hs; simp [startTK] at hs
+    · cases el with
+      | none =>
+        rw [(show Reads pe [] by simpa [yieldO] using hpe).nil]
+        exact ev_caseEls_none (by simp [hu'])
+      | some e =>
+        obtain ⟨ce, _⟩ := cel e rfl
+        obtain ⟨te, pe', rfl, hte, _, hpe'⟩ := (show Reads pe (T .else_ :: yield e) by simpa [yieldO] using hpe).cons
+        exact ev_caseEls_some (proj_T hte) (ev_parseExpr_of ce hpe' (noCont_cons_none (by rw [hu']; rfl)))
+
+theorem cps1_arr_nil : CPS1 (.array .nil) := cps1_of_lit fun pre rest hr _ _ => by
+  obtain ⟨t, p, rfl, ht, _, hp⟩ := (show Reads pre [T .lbrack, T .rbrack] by simpa [yield] using hr).cons
+  obtain ⟨u, rfl, hu, _⟩ := hp.one
+  exact ev_arr_nil (proj_T ht) (proj_T hu)
+
+theorem cps1_arr_cons {e : Expr} {es : Exprs} (c : Complete e) (hn : NF e) (cs : CompleteL es) :
+    CPS1 (.array (.cons e es)) := cps1_of_lit fun pre rest hr _ _ => by
+  rw [show yield (.array (.cons e es)) = T .lbrack :: (yield e ++ (yields es ++ [T .rbrack])) by simp [yield]] at hr
+  obtain ⟨t, p, rfl, ht, _, hp⟩ := hr.cons
+  obtain ⟨pe, p1, rfl, hpe, h1⟩ := hp.append
+  obtain ⟨ps, p2, rfl, hps, h2⟩ := h1.append
+  obtain ⟨u, rfl, hu, _⟩ := h2.one
+  rw [show (t :: (pe ++ (ps ++ [u]))) ++ rest = t :: (pe ++ (ps ++ (u :: rest))) by simp]
+  have hcl : Closes (u :: rest) := Or.inr (by simp [proj_T hu])
+  have hs := hk_yield_start e hn
+  refine ev_arr_cons (proj_T ht) ?_ (ev_parseExpr_of c hpe (noCont_yields hps hcl)) (cs ps (u :: rest) hps hcl) (proj_T hu)
+  rw [cur_reads hpe (yield_ne_of_start hs)]
+  intro h; rw [h] at hs; simp [startTK] at hs
+
+theorem cps1_cast {e : Expr} {ns : List Bytes} (c : Complete e) (hn : nfT ns = true) : CPS1 (.cast e ns) :=
+  cps1_of_lit fun pre rest hr _ _ => by
+    rw [show yield (.cast e ns) = T .cast :: T .lparen :: (yield e ++ (T .as_ :: (pathToks ns ++ [T .rparen]))) by
+      simp [yield]] at hr
+    obtain ⟨t0, p, rfl, ht0, _, hp⟩ := hr.cons
+    obtain ⟨t1, p0, rfl, ht1, _, hp0⟩ := hp.cons
+    obtain ⟨pe, p1, rfl, hpe, h1⟩ := hp0.append
+    obtain ⟨v, p2, rfl, hv, _, h2⟩ := h1.cons
+    obtain ⟨pt, p3, rfl, hpt, h3⟩ := h2.append
+    obtain ⟨w, rfl, hw, _⟩ := h3.one
+    rw [show (t0 :: t1 :: (pe ++ v :: (pt ++ [w]))) ++ rest = t0 :: t1 :: (pe ++ (v :: (pt ++ (w :: rest)))) by simp]
+    exact ev_cast (proj_T ht0) (proj_T ht1)
+      (ev_parseExpr_of c hpe (noCont_cons_none (by rw [proj_T hv]; rfl))) (proj_T hv)
+      (ev_castType hpt hn (by simp [proj_T hw])) (proj_T hw)
+
+theorem cps1_ifE {c t e : Expr} (cc : Complete c) (ct : Complete t) (ce : Complete e) : CPS1 (.ifE c t e) :=
+  cps1_of_lit fun pre rest hr _ _ => by
+    rw [show yield (.ifE c t e) = T .if_ :: T .lparen :: (yield c ++ (T .comma :: (yield t ++ (T .comma ::
+      (yield e ++ [T .rparen]))))) by simp [yield]] at hr
+    obtain ⟨t0, p, rfl, ht0, _, hp⟩ := hr.cons
+    obtain ⟨t1, p0, rfl, ht1, _, hp0⟩ := hp.cons
+    obtain ⟨pc, p1, rfl, hpc, h1⟩ := hp0.append
+    obtain ⟨v, p2, rfl, hv, _, h2⟩ := h1.cons
+    obtain ⟨pt, p3, rfl, hpt, h3⟩ := h2.append
+    obtain ⟨w, p4, rfl, hw, _, h4⟩ := h3.cons
+    obtain ⟨pe, p5, rfl, hpe, h5⟩ := h4.append
+    obtain ⟨x, rfl, hx, _⟩ := h5.one
+    rw [show (t0 :: t1 :: (pc ++ v :: (pt ++ w :: (pe ++ [x])))) ++ rest =
+      t0 :: t1 :: (pc ++ (v :: (pt ++ (w :: (pe ++ (x :: rest)))))) by simp]
+    exact ev_ifE (proj_T ht0) (proj_T ht1)
+      (ev_parseExpr_of cc hpc (noCont_cons_none (by rw [proj_T hv]; rfl))) (proj_T hv)
+      (ev_parseExpr_of ct hpt (noCont_cons_none (by rw [proj_T hw]; rfl))) (proj_T hw)
+      (ev_parseExpr_of ce hpe (noCont_cons_none (by rw [proj_T hx]; rfl))) (proj_T hx)
 
 /-- closure for the expressions whose own level is not a loop level (unary, comparison, NOT) -/
 theorem Complete.of_direct {e : Expr} (h2 : 2 ≤ level e) (hnl : ¬ BinLoop (level e)) (hh : LeftFacts e)
@@ -855,12 +1060,48 @@ theorem complete : (e : Expr) → PrecOK e → NF e → Complete e
     have ci := complete i hp.2 hn'.1.2
     exact Complete.of_cps1 (by simp [level]) (leftFacts _ hp0 hn)
       (cps1_index (c.cps1 hp.1.2) ci (leftFacts i hp.2 hn'.1.2) hn'.2)
+  | .caseE o c t ws el, hp, hn => by
+    have hp0 := hp
+    simp only [PrecOK, precOK, Bool.and_eq_true] at hp
+    have hn' : (((nfo o = true ∧ NF c) ∧ NF t) ∧ nfw ws = true) ∧ nfo el = true := by
+      simpa only [NF, nf, Bool.and_eq_true] using hn
+    exact Complete.of_cps1 (by simp [level]) (leftFacts _ hp0 hn)
+      (cps1_caseE (completeo o hp.1.1.1.1 hn'.1.1.1.1) (complete c hp.1.1.1.2 hn'.1.1.1.2)
+        (complete t hp.1.1.2 hn'.1.1.2) (completew ws hp.1.2 hn'.1.2) (completeo el hp.2 hn'.2))
+  | .ifE c t e, hp, hn => by
+    have hp0 := hp
+    simp only [PrecOK, precOK, Bool.and_eq_true] at hp
+    have hn' : (NF c ∧ NF t) ∧ NF e := by simpa only [NF, nf, Bool.and_eq_true] using hn
+    exact Complete.of_cps1 (by simp [level]) (leftFacts _ hp0 hn)
+      (cps1_ifE (complete c hp.1.1 hn'.1.1) (complete t hp.1.2 hn'.1.2) (complete e hp.2 hn'.2))
+  | .cast e ns, hp, hn => by
+    have hp' : PrecOK e := by simpa [PrecOK, precOK] using hp
+    have hn' : NF e ∧ nfT ns = true := by simpa only [NF, nf, Bool.and_eq_true] using hn
+    exact Complete.of_cps1 (by simp [level]) (leftFacts _ hp hn) (cps1_cast (complete e hp' hn'.1) hn'.2)
+  | .array .nil, hp, hn => Complete.of_cps1 (by simp [level]) (leftFacts _ hp hn) cps1_arr_nil
+  | .array (.cons e es), hp, hn => by
+    have hp0 := hp
+    simp only [PrecOK, precOK, precOKs, Bool.and_eq_true] at hp
+    have hn' : NF e ∧ nfs es = true := by simpa only [NF, nf, nfs, Bool.and_eq_true] using hn
+    exact Complete.of_cps1 (by simp [level]) (leftFacts _ hp0 hn)
+      (cps1_arr_cons (complete e hp.1 hn'.1) hn'.1 (completes es hp.2 hn'.2))
 theorem completes : (m : Exprs) → precOKs m = true → nfs m = true → CompleteL m
   | .nil, _, _ => completeL_nil
   | .cons e es, hp, hn => by
     simp only [precOKs, Bool.and_eq_true] at hp
     simp only [nfs, Bool.and_eq_true] at hn
     exact completeL_cons (complete e hp.1 hn.1) (completes es hp.2 hn.2)
+theorem completew : (ws : Whens) → precOKw ws = true → nfw ws = true → CompleteW ws
+  | .nil, _, _ => completeW_nil
+  | .cons c t ws, hp, hn => by
+    simp only [precOKw, Bool.and_eq_true] at hp
+    simp only [nfw, Bool.and_eq_true] at hn
+    exact completeW_cons (complete c hp.1.1 hn.1.1) (complete t hp.1.2 hn.1.2) (completew ws hp.2 hn.2)
+theorem completeo : (o : OExpr) → precOKo o = true → nfo o = true → CompleteO o
+  | .none, _, _ => fun _ h => by cases h
+  | .some e, hp, hn => fun e' h => by
+    cases h
+    exact ⟨complete e hp hn, hn⟩
 end
 
 /-- **Completeness.**  A tree grouped as the GoogleSQL table says (`PrecOK`), in the parser's normal form (`NF`:
